@@ -65,13 +65,15 @@ REQUIRED = {
     "C12": ["ArpNotRequest", "Icmp4Other", "Icmp6Other", "TcpRstSilent", "TcpSynAckSilent", "TcpSynRefused", "Udp/DNS/mustnot/dns-response",
             "Udp/SMB1/mustnot/smb1-reply-flag", "Udp/SMB2/mustnot/smb2-reply-flag", "TcpDataFirstValid/SMB1/mustnot/smb1-reply-flag"],
     "C13": ["Udp/HTTP/must", "Udp/HTTP/mustnot", "Udp/HTTP/any", "TcpDataFirstValid/HTTP/must", "TcpDataFirstValid/HTTP/mustnot",
-            "TcpDataKnownFlow/HTTP/must", "TcpDataFirstValid/none/mustnot"],
+            "TcpDataKnownFlow/HTTP/must", "TcpDataFirstValid/none/mustnot", "TcpDataKnownFlow/HTTP/must/http-later-request-completed-by-this-segment"],
     "C14": ["Udp/DNS/must/dns-in-a-query", "Udp/DNS/mustnot/dns-question-not-in-a", "Udp/DNS/mustnot/dns-truncated", "Udp/DNS/any"],
     "C15": ["Udp/STUN/must/stun-binding-request", "Udp/STUN/any/stun-malformed", "TcpDataFirstValid/STUN/must"],
-    "C16": ["Udp/RPC_UDP/must/rpc-call", "Udp/RPC_UDP/any", "TcpDataFirstValid/RPC_TCP/must"],
+    "C16": ["Udp/RPC_UDP/must/rpc-call", "Udp/RPC_UDP/any", "TcpDataFirstValid/RPC_TCP/must",
+            "TcpDataKnownFlow/RPC_TCP/must/rpc-later-call-completed-by-this-segment", "TcpDataKnownFlow/RPC_TCP/mustnot/rpc-reply-message-on-an-open-flow"],
     "C17": ["Udp/SMB1/must/smb1-negotiate", "Udp/SMB1/must/smb1-session-setup", "Udp/SMB2/must/smb2-negotiate", "Udp/SMB2/must/smb2-session-setup",
             "Udp/SMB1/mustnot/smb1-reply-flag", "Udp/SMB1/mustnot/smb1-other-command", "Udp/SMB2/mustnot/smb2-reply-flag",
-            "Udp/SMB2/mustnot/smb2-other-command", "Udp/SMB2/mustnot/smb2-no-supported-dialect", "TcpDataFirstValid/SMB1/must", "TcpDataFirstValid/SMB2/must"],
+            "Udp/SMB2/mustnot/smb2-other-command", "Udp/SMB2/mustnot/smb2-no-supported-dialect", "TcpDataFirstValid/SMB1/must", "TcpDataFirstValid/SMB2/must",
+            "TcpDataKnownFlow/SMB1/must/smb1-session-setup", "TcpDataKnownFlow/SMB2/must/smb2-session-setup"],
     "C18": ["Udp/SSH/must", "Udp/SSH/mustnot", "Udp/GHOST/must", "TcpDataFirstValid/SSH/must", "TcpDataFirstValid/SSH/mustnot", "TcpDataFirstValid/GHOST/must"],
     "C19": ["Udp/HTTP/must", "Udp/STUN/must", "Udp/DNS/", "Udp/RPC_UDP/must", "Udp/SMB1/must", "Udp/SMB2/must", "Udp/SSH/must", "Udp/GHOST/must",
             "TcpDataFirstValid/HTTP/must", "TcpDataFirstValid/RPC_TCP/must"],
